@@ -16,8 +16,7 @@ from ..repo import AnalysisError, attr_chain, norm, walk_no_nested
 from ..cfg import CFG, node_calls
 
 LEVEL = "other"
-TECHNIQUE = ("syntax-directed extraction of the precedence chain; CFG must-follow / must-precede / def-use (dead store) "
-             "queries on the encoding-change and sniffing functions")
+TECHNIQUE = ("syntax-directed extraction of the precedence chain; CFG must-follow / must-precede / def-use (dead store) queries on the encoding-change and sniffing functions; evaluation of the pre-scan's byte classes and of handleMeta on every attribute list of length <= 3 against a transcription of the standard; decoder end-of-input contract read off codecs.StreamReader's source")
 CLAIM = ('The order, confidence and guards of the encoding sources in determineEncoding equal the documented '
          'precedence; a declared UTF-16 is mapped to UTF-8 and the mapped value is the one that takes effect '
          'on both declaration paths; a late declaration restarts the parse in the right order and only while '
